@@ -37,6 +37,8 @@ class CallLog:
         self.pairs: list[tuple[int | None, int]] = []
         self.keep: list[Any] = []       # keep callee objects alive (ids stay unique)
         self.ncalls = 0
+        self.method_calls: dict[int, int] = {}     # id(node) -> invocations of its map_* method
+        self.method_order: list[int] = []
         # table extraction: only the probe node's own method runs; calls on its
         # children are recorded and answered by a neutral stand-in, so a refusal
         # or omission is attributed to exactly one (mapper, kind) row
@@ -103,6 +105,22 @@ def logging_class(cls: type, log_getter: Callable[[], CallLog | None]) -> type:
                     return super().rec_function_definition(expr, *a, **kw)
                 finally:
                     lg.exit()
+
+    def counting(orig):
+        def wrapped(self, expr, *a, **kw):
+            lg = log_getter()
+            if lg is not None and reflect._is_node(expr):
+                lg.method_calls[id(expr)] = lg.method_calls.get(id(expr), 0) + 1
+                lg.method_order.append(id(expr))
+                lg.keep.append(expr)
+            return orig(self, expr, *a, **kw)
+        return wrapped
+
+    # the per-node methods (dispatch targets `map_*`): counted once per invocation; a
+    # `super().map_x(...)` inside an override resolves past this subclass and is not recounted
+    for name in dir(cls):
+        if name.startswith("map_") and name != "map_foreign" and inspect.isfunction(getattr(cls, name)):
+            setattr(Logging, name, counting(getattr(cls, name)))
 
     Logging.__name__ = cls.__name__
     Logging.__qualname__ = cls.__qualname__
@@ -617,6 +635,24 @@ def users_disagreements(t: Tables) -> list[tuple[str, str, str, str]]:
             if kk == k:
                 out.append((k, "*", "raises", f"{impl}:{exc}"))
     return out
+
+
+def exclusions_for(t: Tables, mapper: str) -> list[tuple[str, str]]:
+    """the (node class, edge class) pairs the mapper was observed NOT to follow — the `sel`
+    of the Lean model for this mapper, read off today's table"""
+    out = set()
+    for m, k, labels in t.rows:
+        if m != mapper:
+            continue
+        for lb, ec in t.array_edges[k]:
+            if lb not in labels:
+                out.add((t.cls(k), ec))
+    return sorted(out)
+
+
+def refused_kinds(t: Tables, mapper: str) -> dict[str, str]:
+    """node class -> exception the mapper raises on it (today's table)"""
+    return {t.cls(k): x for m, k, x in t.unsupported if m == mapper}
 
 
 # --------------------------------------------------------------------------
